@@ -136,3 +136,53 @@ def t_census():
     info = [{"function": "all of pams (stores, mutating method calls and heapq calls on the invariant fields)", "source_sha": None, "where": "pams/**", "paths": None,
              "assumptions": ["writes through setattr / __dict__ / aliases of the containers are not detected by the census (none occur in pams; user code is bound by DESIGN 3.5)"]}]
     return {"obligations": obl, "info": info}
+
+
+# ----------------------------------------------------------------------------- call-site census: the protocol functions are called only from the call sites the block proofs cover
+# The contracts of the runner are proved per call site (what happens before / after each call of a protocol function: hooks, logging, booking of fills, callbacks).
+# They carry a property to "every history" only if there is no other call site.  Call sites are matched by bare name anywhere in pams (conservative).
+CALLERS = {
+    "matching": (["C01", "C03", "C04", "C05", "C10", "C11", "C13"], "whole_run", {
+        "_execution": {"SequentialRunner._handle_orders"}, "_update_agents_for_execution": {"SequentialRunner._handle_orders"},
+        "_add_order": {"SequentialRunner._handle_orders"}, "_cancel_order": {"SequentialRunner._handle_orders"}, "_execute_orders": {"Market._execution"},
+        "submitted_order": {"SequentialRunner._handle_orders"}, "executed_order": {"SequentialRunner._handle_orders"}, "canceled_order": {"SequentialRunner._handle_orders"},
+        "change_order_volume": {"Market._execute_orders"}, "_update_market_price": {"Market._add_order", "Market._cancel_order", "Market._execute_orders"},
+        "_trigger_event_before_order": {"SequentialRunner._handle_orders"}, "_trigger_event_after_order": {"SequentialRunner._handle_orders"},
+        "_trigger_event_before_cancel": {"SequentialRunner._handle_orders"}, "_trigger_event_after_cancel": {"SequentialRunner._handle_orders"},
+        "_trigger_event_after_execution": {"SequentialRunner._handle_orders"}}),
+    "clock": (["C06", "C17", "C13"], "index", {
+        "_update_time": {"Simulator._update_time_on_market"}, "_update_time_on_market": {"Simulator._update_times_on_markets"},
+        "_update_times_on_markets": {"SequentialRunner._iterate_market_updates", "SequentialRunner._run"},
+        "_set_time": {"Market._set_time", "Market._update_time"}, "_fill_until": {"Market._set_time", "Market._update_time"},
+        "_check_expired_orders": {"OrderBook._set_time", "OrderBook._update_time"},
+        "_trigger_event_before_step_for_market": {"SequentialRunner._iterate_market_updates"}, "_trigger_event_after_step_for_market": {"SequentialRunner._iterate_market_updates"},
+        "_trigger_event_before_session": {"SequentialRunner._run"}, "_trigger_event_after_session": {"SequentialRunner._run"}}),
+    "session-flow": (["C09", "C11"], "whole_run", {
+        "_collect_orders_from_normal_agents": {"SequentialRunner._update_markets"}, "_handle_orders": {"SequentialRunner._update_markets"},
+        "_update_markets": {"SequentialRunner._iterate_market_updates"}, "_iterate_market_updates": {"SequentialRunner._run"}}),
+    "fundamentals": (["C12"], "fundamentals", {
+        "_generate_next": {"Fundamentals.get_fundamental_price", "Fundamentals.get_fundamental_prices"}, "_generate_log_return": {"Fundamentals._generate_next"}}),
+}
+
+
+def _callers_task(group, props, replay, table):
+    @task(f"census:callers[{group}]", props=props, functions=[], replay=replay)
+    def t():
+        src = get_src()
+        sites = call_sites(src)
+        obl = []
+        for name in sorted(table):
+            allowed = table[name]
+            extra = set(sites.get(name, set())) - allowed
+            extra = sorted(extra - private_helpers_of(allowed, extra, sites))
+            obl.append({"name": f"census:callers/`{name}` is called only from {sorted(allowed)}" + ("" if not extra else f" -- also called from {extra[:3]}"),
+                        "pc": [], "goal": z3.BoolVal(not extra), "kind": "census", "hints": {"callee": name, "unexpected_callers": extra}})
+        obl.append({"name": "census:callers/cover:every listed function has a call site", "pc": [], "goal": z3.BoolVal(all(sites.get(n) for n in table)), "kind": "cover"})
+        info = [{"function": f"all of pams (call sites of the {group} protocol functions, matched by bare name)", "source_sha": None, "where": "pams/**", "paths": None,
+                 "assumptions": ["calls through getattr / bound-method aliases are not detected by the census (none occur in pams; user code is bound by DESIGN 3.5)"]}]
+        return {"obligations": obl, "info": info}
+    return t
+
+
+for _g, (_p, _r, _t) in CALLERS.items():
+    _callers_task(_g, _p, _r, _t)
